@@ -232,3 +232,941 @@ Proof.
     + right. split; [reflexivity|exact Hty].
     + left. reflexivity.
 Qed.
+
+(* ---------- per-frame theorems ------------------------------------------------------------------ *)
+
+(* a panicked peer is frozen: its frame is the identity (p_out keeps the outputs of the frame that
+   panicked) — hence `p_panic pr = None` below *)
+Lemma frame_panicked pr o : p_panic pr <> None -> frame pr o = pr.
+Proof. unfold frame. destruct (p_panic pr); [reflexivity|congruence]. Qed.
+
+(* Remark on the model: gstep (StFrame p o) delivers p_out (frame pr o); for a panicked peer this is
+   the unchanged p_out of the frame that panicked, delivered again at every StFrame. *)
+Lemma panicked_peer_resends g p pr o :
+  g !! p = Some pr -> p_panic pr <> None ->
+  gstep g (StFrame p o) = deliver_out (<[p := pr]> g) p (p_out pr).
+Proof. intros Hp Hn. unfold gstep. rewrite Hp. cbv zeta. rewrite (frame_panicked pr o Hn). reflexivity. Qed.
+
+(* the opt-in configuration is constant during a frame, unconditionally *)
+Theorem frame_config pr o :
+  p_sync_types (frame pr o) = p_sync_types pr /\ t_mat (frame pr o) = t_mat pr /\
+  t_mesh (frame pr o) = t_mesh pr /\ t_audio (frame pr o) = t_audio pr /\
+  p_id (frame pr o) = p_id pr /\ p_order (frame pr o) = p_order pr.
+Proof.
+  destruct (p_panic pr) eqn:Hp; [rewrite frame_panicked by congruence; tauto|].
+  destruct (TInv_frame pr o Hp) as [H1 H2 H3 H4 H5 H6 _ _ _ _ _ _ _ _ _]. tauto.
+Qed.
+
+Lemma cmd_ok_relays (inb : msg -> Prop) (kn : uuid -> Prop) (vt : tyid -> value -> Prop) c m :
+  cmd_ok inb kn vt c -> cmd_relays c m -> inb m.
+Proof.
+  intros Hc Hr. destruct c; simpl in *; try contradiction.
+  - destruct from; [|contradiction]. subst m. apply Hc. discriminate.
+  - subst m. exact Hc.
+  - destruct from; [|contradiction]. subst m. apply Hc. discriminate.
+  - subst m0. exact Hc.
+Qed.
+
+(* what is pending relay after the frame was pending relay before it *)
+Theorem relayed_frame pr o m :
+  p_panic pr = None -> app_cmds_ok pr -> relayed (frame pr o) m -> relayed pr m.
+Proof.
+  intros Hp Ha Hr. pose proof (LInv_frame pr o Hp Ha) as HI.
+  destruct Hr as [(from & l & Hl & Hin)|(k & cs & c & Hl & Hin & Hr)].
+  - eapply (i_inbox _ _ _ _ _ _ _ _ _ _ _ _ _ _ _ _ HI); eassumption.
+  - eapply cmd_ok_relays; [|exact Hr]. eapply (i_cmdq _ _ _ _ _ _ _ _ _ _ _ _ _ _ _ _ HI); eassumption.
+Qed.
+
+(* a frame invents no uuid *)
+Theorem known_frame pr o u :
+  p_panic pr = None -> app_cmds_ok pr -> known (frame pr o) u -> known pr u.
+Proof.
+  intros Hp Ha Hk. pose proof (LInv_frame pr o Hp Ha) as HI.
+  destruct Hk as [(e & Hl)|[(e & Hl)|[(e & en & Hl & Hs)|[(en & Hl & Hm)|[(t & v & Hq)|[Hr|(k & cs & e & Hl & Hin)]]]]]].
+  - eapply (i_u2e _ _ _ _ _ _ _ _ _ _ _ _ _ _ _ _ HI); eassumption.
+  - eapply (i_e2u _ _ _ _ _ _ _ _ _ _ _ _ _ _ _ _ HI); eassumption.
+  - destruct (i_ents _ _ _ _ _ _ _ _ _ _ _ _ _ _ _ _ HI _ _ Hl) as (H & _). apply H. exact Hs.
+  - destruct (i_ents _ _ _ _ _ _ _ _ _ _ _ _ _ _ _ _ HI _ _ Hl) as (_ & H & _).
+    do 3 right. left. apply H. exact Hm.
+  - exact (i_queue _ _ _ _ _ _ _ _ _ _ _ _ _ _ _ _ HI _ Hq).
+  - do 5 right. left. eapply relayed_frame; eassumption.
+  - destruct Hin as [Hin|Hin]; exact (i_cmdq _ _ _ _ _ _ _ _ _ _ _ _ _ _ _ _ HI _ _ _ Hl Hin).
+Qed.
+
+(* (3) assets: an originated asset update has its class enabled on this peer (and, for the URL
+   classes, points to this peer's own endpoint) *)
+Theorem originated_assets_enabled pr o :
+  p_panic pr = None -> app_cmds_ok pr ->
+  (forall dst a v, In (dst, MMaterial a v) (p_out (frame pr o)) ->
+     relayed pr (MMaterial a v) \/ t_mat pr = true) /\
+  (forall dst c a owner, In (dst, MAsset c a owner) (p_out (frame pr o)) ->
+     relayed pr (MAsset c a owner) \/ (class_enabled pr (KClass c) = true /\ owner = p_id pr)).
+Proof.
+  intros Hp Ha. pose proof (LInv_frame pr o Hp Ha) as HI. split.
+  - intros dst a v Hin. exact (i_out _ _ _ _ _ _ _ _ _ _ _ _ _ _ _ _ HI _ _ Hin).
+  - intros dst c a owner Hin. pose proof (i_out _ _ _ _ _ _ _ _ _ _ _ _ _ _ _ _ HI _ _ Hin) as H.
+    simpl in H. destruct H as [H|[H1 H2]]; [left; exact H|right]. split; [|exact H2].
+    destruct c; exact H1.
+Qed.
+
+(* entity-level and component messages only mention uuids this peer's sync machinery knew *)
+Theorem originated_subjects_known pr o :
+  p_panic pr = None -> app_cmds_ok pr ->
+  forall dst m, In (dst, m) (p_out (frame pr o)) ->
+    relayed pr m \/ forall u, In u (msg_subjects m) -> known pr u.
+Proof.
+  intros Hp Ha dst m Hin. pose proof (LInv_frame pr o Hp Ha) as HI.
+  pose proof (i_out _ _ _ _ _ _ _ _ _ _ _ _ _ _ _ _ HI _ _ Hin) as H.
+  destruct m; simpl in H; simpl msg_subjects; [| | | |right; intros ? []..].
+  - destruct H as [H|H]; [left; exact H|right]. intros u' [<-|[]]. exact H.
+  - destruct H as [H|[H1 H2]]; [left; exact H|right]. intros u' [<-|[<-|[]]]; assumption.
+  - destruct H as [H|H]; [left; exact H|right]. intros u' [<-|[]]. exact H.
+  - destruct H as [H|[H|(H & _)]]; [left; exact H|right|right]; intros u' [<-|[]]; exact H.
+Qed.
+
+(* (4) an entity the application never marked: its id is not a uuid the machinery knows, so no
+   originated message is about it, MSpawn e is not sent at all, and it stays unknown *)
+Theorem never_marked_never_sent pr o e :
+  p_panic pr = None -> app_cmds_ok pr -> ~ known pr e ->
+  (forall dst m, In (dst, m) (p_out (frame pr o)) -> In e (msg_subjects m) -> relayed pr m) /\
+  (forall dst, ~ In (dst, MSpawn e) (p_out (frame pr o))) /\
+  ~ known (frame pr o) e.
+Proof.
+  intros Hp Ha Hk. split; [|split].
+  - intros dst m Hin He. destruct (originated_subjects_known pr o Hp Ha _ _ Hin) as [H|H]; [exact H|].
+    exfalso. apply Hk. apply H. exact He.
+  - intros dst Hin. destruct (originated_subjects_known pr o Hp Ha _ _ Hin) as [H|H].
+    + apply Hk. do 5 right. left. exact H.
+    + apply Hk. apply H. left. reflexivity.
+  - intros H. apply Hk. eapply known_frame; eassumption.
+Qed.
+
+(* ... and the frame does not enter it into entity_to_uuid (entity ids allocated by the frame are
+   >= p_next_ent) *)
+Theorem unmarked_stays_untracked pr o e :
+  p_panic pr = None -> app_cmds_ok pr ->
+  t_e2u pr !! e = None -> ~ marked pr e -> e < p_next_ent pr ->
+  t_e2u (frame pr o) !! e = None.
+Proof.
+  intros Hp Ha Hn Hm Hlt. pose proof (LInv_frame pr o Hp Ha) as HI.
+  destruct (t_e2u (frame pr o) !! e) as [u|] eqn:E; [|reflexivity]. exfalso.
+  destruct (i_e2u _ _ _ _ _ _ _ _ _ _ _ _ _ _ _ _ HI _ _ E) as [_ [[x Hx]|[H|H]]].
+  - congruence.
+  - exact (Hm H).
+  - lia.
+Qed.
+
+(* (2) components *)
+Definition comp_provenance (pr : peer_state) (o : frame_oracle) (u : uuid) (t : tyid) (v : value) : Prop :=
+  relayed pr (MComp u t v) \/                                            (* copy of a received message *)
+  (opted pr (u, t, v) /\ (In (u, t, v) (t_queue pr) \/ detected_in pr o (u, t, v))) \/  (* change detection *)
+  opted pr (u, t, v).                                                    (* snapshot (build_full_sync) *)
+
+Theorem component_provenance pr o :
+  p_panic pr = None -> queue_ok pr -> order_ok pr -> typed_state pr -> app_cmds_ok pr ->
+  forall dst u t v, In (dst, MComp u t v) (p_out (frame pr o)) -> comp_provenance pr o u t v.
+Proof.
+  intros Hp Hq Ho Ht Ha dst u t v Hin. pose proof (FInv_frame pr o Hp Hq Ho Ht Ha) as HI.
+  exact (i_out _ _ _ _ _ _ _ _ _ _ _ _ _ _ _ _ HI _ _ Hin).
+Qed.
+
+Theorem queued_at_detection pr o :
+  p_panic pr = None -> queue_ok pr -> order_ok pr -> typed_state pr -> app_cmds_ok pr ->
+  forall x, In x (t_queue (frame pr o)) -> opted pr x /\ (In x (t_queue pr) \/ detected_in pr o x).
+Proof.
+  intros Hp Hq Ho Ht Ha x Hin. pose proof (FInv_frame pr o Hp Hq Ho Ht Ha) as HI.
+  exact (i_queue _ _ _ _ _ _ _ _ _ _ _ _ _ _ _ _ HI _ Hin).
+Qed.
+
+Lemma relayed_frame_typed pr o u t v :
+  p_panic pr = None -> typed_state pr -> app_cmds_ok pr ->
+  relayed (frame pr o) (MComp u t v) -> val_typed t v.
+Proof. intros Hp Ht Ha Hr. eapply relayed_typed; [exact Ht|]. eapply relayed_frame; eassumption. Qed.
+
+Theorem frame_preserves_hyps pr o :
+  p_panic pr = None -> queue_ok pr -> order_ok pr -> typed_state pr -> app_cmds_ok pr ->
+  queue_ok (frame pr o) /\ order_ok (frame pr o) /\ typed_state (frame pr o) /\ app_cmds_ok (frame pr o).
+Proof.
+  intros Hp Hq Ho Ht Ha. pose proof (FInv_frame pr o Hp Hq Ho Ht Ha) as HI.
+  destruct (frame_config pr o) as (Ety & _ & _ & _ & _ & Eor).
+  split; [|split; [|split]].
+  - intros u t v Hin. destruct (i_queue _ _ _ _ _ _ _ _ _ _ _ _ _ _ _ _ HI _ Hin) as [(_ & Hw & Hs) _].
+    split; [|exact Hs]. unfold wire_opted in *. rewrite Ety. exact Hw.
+  - intros t Hin. rewrite Ety. apply Ho. rewrite <- Eor. exact Hin.
+  - constructor.
+    + intros e en t c Hl Hc. destruct (i_ents _ _ _ _ _ _ _ _ _ _ _ _ _ _ _ _ HI _ _ Hl) as (_ & _ & H).
+      eapply H. exact Hc.
+    + intros from l u t v Hl Hin. eapply relayed_typed; [exact Ht|].
+      eapply (i_inbox _ _ _ _ _ _ _ _ _ _ _ _ _ _ _ _ HI); eassumption.
+    + intros k cs c Hl Hin. pose proof (i_cmdq _ _ _ _ _ _ _ _ _ _ _ _ _ _ _ _ HI _ _ _ Hl Hin) as Hc.
+      destruct c; simpl in *; try exact I; try tauto.
+      destruct m; try exact I. eapply relayed_typed; eassumption.
+    + intros n c Hin. apply (i_app _ _ _ _ _ _ _ _ _ _ _ _ _ _ _ _ HI _ _ Hin).
+  - intros n c Hin. apply (i_app _ _ _ _ _ _ _ _ _ _ _ _ _ _ _ _ HI _ _ Hin).
+Qed.
+
+Theorem originated_components_opted_in pr o :
+  p_panic pr = None -> queue_ok pr -> order_ok pr -> typed_state pr -> app_cmds_ok pr ->
+  (forall dst u t v, In (dst, MComp u t v) (p_out (frame pr o)) ->
+     relayed pr (MComp u t v) \/ (known pr u /\ wire_opted pr t /\ not_skin v)) /\
+  queue_ok (frame pr o).
+Proof.
+  intros Hp Hq Ho Ht Ha. split; [|apply frame_preserves_hyps; assumption].
+  intros dst u t v Hin.
+  destruct (component_provenance pr o Hp Hq Ho Ht Ha _ _ _ _ Hin) as [H|[[H _]|H]];
+    [left; exact H|right; exact H|right; exact H].
+Qed.
+
+(* unregistered component types are never originated *)
+Corollary unregistered_type_never_originated pr o t :
+  p_panic pr = None -> queue_ok pr -> order_ok pr -> typed_state pr -> app_cmds_ok pr ->
+  ~ wire_opted pr t ->
+  forall dst u v, In (dst, MComp u t v) (p_out (frame pr o)) -> relayed pr (MComp u t v).
+Proof.
+  intros Hp Hq Ho Ht Ha Hn dst u v Hin.
+  destruct (proj1 (originated_components_opted_in pr o Hp Hq Ho Ht Ha) _ _ _ _ Hin) as [H|(_ & H & _)];
+    [exact H|contradiction].
+Qed.
+
+(* every message this frame emits is well typed (no raw SkinnedMesh value travels) *)
+Theorem out_typed pr o :
+  p_panic pr = None -> queue_ok pr -> order_ok pr -> typed_state pr -> app_cmds_ok pr ->
+  forall dst u t v, In (dst, MComp u t v) (p_out (frame pr o)) -> val_typed t v.
+Proof.
+  intros Hp Hq Ho Ht Ha dst u t v Hin.
+  destruct (proj1 (originated_components_opted_in pr o Hp Hq Ho Ht Ha) _ _ _ _ Hin) as [H|(_ & _ & H)].
+  - eapply relayed_typed; eassumption.
+  - destruct v; simpl in *; [exact I|contradiction|exact I].
+Qed.
+
+(* always-excluded components: if at every point of the schedule where the detector of t runs all
+   synchronised entities carrying t also carry SyncExclude<t>, that detector queues nothing *)
+Definition excluded_at_detection (pr : peer_state) (o : frame_oracle) (t : tyid) : Prop :=
+  forall pre post e en, p_order pr = pre ++ SDetect t :: post ->
+    p_ents (frame_mid pr o pre) !! e = Some en -> is_Some (en_sync en) -> is_Some (en_comps en !! t) ->
+    In t (en_excl en).
+
+Theorem excluded_detector_silent pr o t :
+  p_panic pr = None -> queue_ok pr -> order_ok pr -> typed_state pr -> app_cmds_ok pr ->
+  excluded_at_detection pr o t ->
+  forall x, In x (t_queue (frame pr o)) ->
+    In x (t_queue pr) \/
+    exists pre t0 post, t0 <> t /\ p_order pr = pre ++ SDetect t0 :: post /\
+      detect_witness (frame_mid pr o pre) t0 x /\ (x.1.2 = t0 \/ (x.1.2 = T_MAPPER /\ t0 = T_SKIN)).
+Proof.
+  intros Hp Hq Ho Ht Ha Hex x Hin.
+  destruct (queued_at_detection pr o Hp Hq Ho Ht Ha x Hin) as [_ [H|(pre & t0 & post & Hord & Hw & _ & Hty)]];
+    [left; exact H|right].
+  exists pre, t0, post. split; [|split; [exact Hord|split; [exact Hw|exact Hty]]].
+  intros ->. destruct Hw as (e & en & c & Hl & Hs & Hc & Hne & _). apply Hne.
+  eapply Hex; [exact Hord|exact Hl|eexists; exact Hs|eexists; exact Hc].
+Qed.
+
+Corollary excluded_type_not_queued pr o t :
+  p_panic pr = None -> queue_ok pr -> order_ok pr -> typed_state pr -> app_cmds_ok pr ->
+  excluded_at_detection pr o t -> t <> T_MAPPER ->
+  forall u v, In (u, t, v) (t_queue (frame pr o)) -> In (u, t, v) (t_queue pr).
+Proof.
+  intros Hp Hq Ho Ht Ha Hex Hnm u v Hin.
+  destruct (excluded_detector_silent pr o t Hp Hq Ho Ht Ha Hex _ Hin) as [H|(pre & t0 & post & Hne & _ & _ & Hty)];
+    [exact H|]. cbn [fst snd] in Hty. destruct Hty as [H|[H _]]; congruence.
+Qed.
+
+Corollary excluded_skin_not_queued pr o :
+  p_panic pr = None -> queue_ok pr -> order_ok pr -> typed_state pr -> app_cmds_ok pr ->
+  excluded_at_detection pr o T_SKIN -> ~ In T_MAPPER (p_sync_types pr) ->
+  forall u v, In (u, T_MAPPER, v) (t_queue (frame pr o)) -> In (u, T_MAPPER, v) (t_queue pr).
+Proof.
+  intros Hp Hq Ho Ht Ha Hex Hnm u v Hin.
+  destruct (excluded_detector_silent pr o T_SKIN Hp Hq Ho Ht Ha Hex _ Hin)
+    as [H|(pre & t0 & post & Hne & Hord & _ & Hty)]; [exact H|].
+  cbn [fst snd] in Hty. destruct Hty as [H|[_ H]]; [|congruence].
+  exfalso. apply Hnm. rewrite H. apply Ho. rewrite Hord. apply in_or_app. right. left. reflexivity.
+Qed.
+
+(* ---------- the emitting functions, on the state in which they run ----------------------------- *)
+
+(* (1) what sync_detect::<t> adds to the queue: OptInLemmas.sync_detect_adds, restated *)
+Theorem sync_detect_adds_opted pr t last u t' v :
+  In (u, t', v) (t_queue (sync_detect pr t last)) ->
+  In (u, t', v) (t_queue pr) \/
+  exists e en, p_ents pr !! e = Some en /\ en_sync en = Some u /\ ~ In t (en_excl en) /\
+    en_comps en !! t <> None /\
+    (t' = t \/ (t' = T_MAPPER /\ exists c j p, en_comps en !! t = Some c /\ c_val c = VSkin j p)).
+Proof.
+  intros Hin. apply sync_detect_adds in Hin as [H|(e & en & c & Hl & Hs & Hc & Hne & Hm)]; [left; exact H|right].
+  exists e, en. split; [exact Hl|]. split; [exact Hs|]. split; [exact Hne|]. split; [congruence|].
+  cbn [fst snd] in Hm. destruct (c_val c) as [n|j p|j p] eqn:Ev; destruct Hm as [-> _].
+  - left. reflexivity.
+  - right. split; [reflexivity|]. exists c, j, p. split; assumption.
+  - left. reflexivity.
+Qed.
+
+(* the snapshot sent to a joining client (build_full_sync), in the state in which it is built.
+   Note: the uuid is read from entity_to_uuid, not from the SyncEntity component. *)
+Theorem snapshot_opted pr m :
+  In m (build_full_sync pr).2 ->
+  match m with
+  | MSpawn u => exists e en, p_ents pr !! e = Some en /\ is_Some (en_sync en) /\ t_e2u pr !! e = Some u
+  | MParented u pu =>
+      exists e en q tk, p_ents pr !! e = Some en /\ is_Some (en_sync en) /\ en_parent en = Some (q, tk) /\
+        t_e2u pr !! e = Some u /\ t_e2u pr !! q = Some pu
+  | MComp u t' v =>
+      exists e en t c, p_ents pr !! e = Some en /\ is_Some (en_sync en) /\ t_e2u pr !! e = Some u /\
+        en_comps en !! t = Some c /\ In t (p_sync_types pr) /\ ~ In t (en_excl en) /\
+        match c_val c with
+        | VSkin j p => t' = T_MAPPER /\ v = to_skinned_mapper pr j p
+        | w => t' = t /\ v = w
+        end
+  | MMaterial _ _ => t_mat pr = true
+  | MAsset c _ owner => class_enabled pr (KClass c) = true /\ owner = p_id pr
+  | _ => False
+  end.
+Proof.
+  intros Hin. apply build_full_sync_msgs in Hin as [H|[H|[H|H]]].
+  - destruct H as (e & en & Hl & Hin). apply snapshot_entity_msgs_In in Hin as (su & u & Hs & Hu & Hm).
+    destruct Hm as [->|(t & c & Hc & Ht & Hne & ->)].
+    + exists e, en. split; [exact Hl|]. split; [eexists; exact Hs|exact Hu].
+    + destruct (c_val c) as [n|j p|j p] eqn:Ev; exists e, en, t, c; rewrite Ev;
+        (split; [exact Hl|split; [eexists; exact Hs|split; [exact Hu|split; [exact Hc|split; [exact Ht|split; [exact Hne|split; reflexivity]]]]]]).
+  - destruct H as (e & en & Hl & Hin).
+    apply snapshot_parent_msgs_In in Hin as (su & q & tk & u & pu & Hs & Hp & Hu & Hq & ->).
+    exists e, en, q, tk. split; [exact Hl|]. split; [eexists; exact Hs|]. split; [exact Hp|]. split; assumption.
+  - destruct H as (Hm & a & v & ->). exact Hm.
+  - destruct H as (c & a & Hc & ->). split; [exact Hc|reflexivity].
+Qed.
+
+(* entity_created_on_server / _on_client announce exactly the newly marked entities *)
+Lemma send_all_out pr ds m' d m : In (d, m) (p_out (send_all pr ds m')) -> In (d, m) (p_out pr) \/ m = m'.
+Proof.
+  unfold send_all. revert d m.
+  apply (foldl_inv (fun a => forall d m, In (d, m) (p_out a) -> In (d, m) (p_out pr) \/ m = m')); [tauto|].
+  intros a x _ Ha d m Hin. unfold send in Hin. cbn [p_out set] in Hin.
+  apply in_app_or in Hin as [Hin|[Heq|[]]]; [apply Ha; exact Hin|right; congruence].
+Qed.
+
+Lemma send_up_out pr m' d m : In (d, m) (p_out (send_up pr m')) -> In (d, m) (p_out pr) \/ m = m'.
+Proof.
+  unfold send_up. destruct (n_cli_transport pr) as [[h ?]|]; [|tauto]. unfold send. cbn [p_out set].
+  intros Hin. apply in_app_or in Hin as [Hin|[Heq|[]]]; [left; exact Hin|right; congruence].
+Qed.
+
+Theorem entity_created_out server pr k last d m :
+  In (d, m) (p_out (entity_created server pr k last)) ->
+  In (d, m) (p_out pr) \/ exists e en, p_ents pr !! e = Some en /\ en_mark en <> None /\ m = MSpawn e.
+Proof.
+  unfold entity_created. revert d m.
+  apply (foldl_inv (fun a => forall d m, In (d, m) (p_out a) ->
+           In (d, m) (p_out pr) \/ exists e en, p_ents pr !! e = Some en /\ en_mark en <> None /\ m = MSpawn e));
+    [tauto|].
+  intros a [e en] Hin Ha d m. destruct (newly_marked last en) eqn:Hn; [|apply Ha]. cbv zeta.
+  assert (Hnew : exists e0 en0, p_ents pr !! e0 = Some en0 /\ en_mark en0 <> None /\ MSpawn e = MSpawn e0).
+  { exists e, en. split; [apply In_map_to_list; exact Hin|]. split; [|reflexivity].
+    unfold newly_marked in Hn. destruct (en_mark en); [discriminate|discriminate]. }
+  destruct server.
+  - change (In (d, m) (p_out (broadcast a (MSpawn e))) -> In (d, m) (p_out pr) \/
+            exists e0 en0, p_ents pr !! e0 = Some en0 /\ en_mark en0 <> None /\ m = MSpawn e0).
+    intros H. apply send_all_out in H as [H| ->]; [apply Ha; exact H|right; exact Hnew].
+  - change (In (d, m) (p_out (send_up (a <| t_u2e := <[e := e]> (t_u2e a) |> <| t_e2u := <[e := e]> (t_e2u a) |>) (MSpawn e))) ->
+            In (d, m) (p_out pr) \/
+            exists e0 en0, p_ents pr !! e0 = Some en0 /\ en_mark en0 <> None /\ m = MSpawn e0).
+    intros H. apply send_up_out in H as [H| ->]; [apply Ha; exact H|right; exact Hnew].
+Qed.
+
+(* ---------- application operations and the schedule hypothesis ---------------------------------- *)
+
+Ltac dmi := match goal with |- context [match ?x with _ => _ end] =>
+  lazymatch x with
+  | context [match _ with _ => _ end] => fail
+  | _ => destruct x eqn:?; cbv beta iota
+  end end.
+
+Lemma app_step_static pr op :
+  p_order (app_step pr op) = match op with OSetOrder order => order | _ => p_order pr end /\
+  p_sync_types (app_step pr op) = match op with OReg t => t :: removeN t (p_sync_types pr) | _ => p_sync_types pr end /\
+  t_queue (app_step pr op) = t_queue pr /\ n_inbox (app_step pr op) = n_inbox pr /\
+  p_cmdq (app_step pr op) = p_cmdq pr /\ p_out (app_step pr op) = p_out pr.
+Proof.
+  destruct op; unfold app_step; cbv zeta;
+    unfold add_child, insert_asset, upd_ent, set_panic; cbv zeta;
+    repeat dmi; repeat split; reflexivity.
+Qed.
+
+Lemma In_removeN_other x y l : In y l -> y <> x -> In y (removeN x l).
+Proof.
+  intros Hin Hne. unfold removeN. apply elem_of_list_In. apply elem_of_list_filter. split.
+  - apply Is_true_true. apply negb_true_iff. apply N.eqb_neq. congruence.
+  - apply elem_of_list_In. exact Hin.
+Qed.
+
+Lemma reg_mono t x l : In x l -> In x (t :: removeN t l).
+Proof.
+  intros Hin. destruct (N.eq_dec x t) as [->|Hne]; [left; reflexivity|right].
+  apply In_removeN_other; assumption.
+Qed.
+
+(* order_ok is preserved by every application operation; for OSetOrder provided the new order
+   only contains detectors of registered types (which is what the real schedule contains) *)
+Theorem app_step_order_ok pr op :
+  order_ok pr ->
+  (forall order, op = OSetOrder order -> forall t, In (SDetect t) order -> In t (p_sync_types pr)) ->
+  order_ok (app_step pr op).
+Proof.
+  intros Ho Hset t. destruct (app_step_static pr op) as (E1 & E2 & _). rewrite E1, E2.
+  destruct op; try apply Ho.
+  - intros Hin. apply reg_mono. apply Ho. exact Hin.
+  - apply (Hset _ eq_refl).
+Qed.
+
+(* ---------- (5) all traces of the global system ------------------------------------------------- *)
+
+(* t is opted in (as a wire type) on some peer of g *)
+Definition registered_somewhere (g : global) (t : tyid) : Prop :=
+  exists q prq, g !! q = Some prq /\ wire_opted prq t.
+
+Definition msg_fine (T : tyid -> Prop) (m : msg) : Prop :=
+  match m with MComp _ t v => T t /\ val_typed t v | _ => True end.
+
+Record peer_fine (T : tyid -> Prop) (pr : peer_state) : Prop := {
+  pf_queue : queue_ok pr;
+  pf_order : order_ok pr;
+  pf_typed : typed_state pr;
+  pf_app : app_cmds_ok pr;
+  pf_relayed : forall m, relayed pr m -> msg_fine T m;
+  pf_out : forall d m, In (d, m) (p_out pr) -> msg_fine T m;
+}.
+
+Definition all_fine (T : tyid -> Prop) (g : global) : Prop :=
+  forall p pr, g !! p = Some pr -> peer_fine T pr.
+Definition global_fine (g : global) : Prop := all_fine (registered_somewhere g) g.
+
+(* the discipline of the application (what the harness generates): a schedule only contains the
+   detectors of registered types; application systems only issue application commands; values
+   are well typed *)
+Definition op_ok (pr : peer_state) (op : app_op) : Prop :=
+  match op with
+  | OSetOrder order => forall t, In (SDetect t) order -> In t (p_sync_types pr)
+  | OAppCmd _ c => is_app_cmd c /\ cmd_typed c
+  | OSpawn _ _ comps => forall t v, In (t, v) comps -> val_typed t v
+  | OWrite _ t v => val_typed t v
+  | _ => True
+  end.
+Definition step_ok (g : global) (s : step) : Prop :=
+  match s with
+  | StApp p op => forall pr, g !! p = Some pr -> op_ok pr op
+  | _ => True
+  end.
+Fixpoint trace_ok (g : global) (tr : list step) : Prop :=
+  match tr with
+  | [] => True
+  | s :: tr' => step_ok g s /\ trace_ok (gstep g s) tr'
+  end.
+
+Lemma msg_fine_mono (T T' : tyid -> Prop) m : (forall t, T t -> T' t) -> msg_fine T m -> msg_fine T' m.
+Proof. intros H. destruct m; simpl; try tauto. intros [? ?]. split; [apply H|]; assumption. Qed.
+
+Lemma peer_fine_mono (T T' : tyid -> Prop) pr : (forall t, T t -> T' t) -> peer_fine T pr -> peer_fine T' pr.
+Proof.
+  intros H [H1 H2 H3 H4 H5 H6]. constructor; try assumption.
+  - intros m Hm. eapply msg_fine_mono; [exact H|apply H5; exact Hm].
+  - intros d m Hm. eapply msg_fine_mono; [exact H|eapply H6; exact Hm].
+Qed.
+
+Lemma frame_fine (T : tyid -> Prop) pr o :
+  peer_fine T pr -> (forall t, wire_opted pr t -> T t) -> peer_fine T (frame pr o).
+Proof.
+  intros Hf Hself. destruct (p_panic pr) eqn:Hp; [rewrite frame_panicked by congruence; exact Hf|].
+  destruct Hf as [Hq Ho Ht Ha Hr _].
+  destruct (frame_preserves_hyps pr o Hp Hq Ho Ht Ha) as (Q1 & Q2 & Q3 & Q4).
+  constructor; try assumption.
+  - intros m Hm. apply Hr. eapply relayed_frame; eassumption.
+  - intros d m Hin. destruct m; try exact I.
+    destruct (proj1 (originated_components_opted_in pr o Hp Hq Ho Ht Ha) _ _ _ _ Hin) as [H|(_ & Hw & Hs)].
+    + apply Hr in H. exact H.
+    + split; [apply Hself; exact Hw|]. destruct v; simpl in *; [exact I|contradiction|exact I].
+Qed.
+
+Definition ents_typed (m : gmap ent entity) : Prop :=
+  forall e en t c, m !! e = Some en -> en_comps en !! t = Some c -> val_typed t (c_val c).
+
+Lemma ents_typed_upd pr e f :
+  ents_typed (p_ents pr) ->
+  (forall en, (forall t c, en_comps en !! t = Some c -> val_typed t (c_val c)) ->
+              forall t c, en_comps (f en) !! t = Some c -> val_typed t (c_val c)) ->
+  ents_typed (p_ents (upd_ent pr e f)).
+Proof.
+  intros Ht Hf. unfold upd_ent. destruct (p_ents pr !! e) as [en0|] eqn:E; [|exact Ht].
+  cbn [p_ents set]. intros e' en t c Hl Hc. destruct (decide (e' = e)) as [->|Hne].
+  - rewrite lookup_insert in Hl. injection Hl as <-. eapply Hf; [|exact Hc]. intros t' c' Hc'. eapply Ht; eassumption.
+  - rewrite lookup_insert_ne in Hl by congruence. eapply Ht; eassumption.
+Qed.
+
+Lemma put_comp_typed now t v en :
+  val_typed t v -> (forall t' c, en_comps en !! t' = Some c -> val_typed t' (c_val c)) ->
+  forall t' c, en_comps (put_comp now t v en) !! t' = Some c -> val_typed t' (c_val c).
+Proof.
+  intros Hv Hen t' c. unfold put_comp. destruct (en_comps en !! t) eqn:E; cbn [en_comps set]; intros Hl;
+    (destruct (decide (t' = t)) as [->|Hne];
+     [rewrite lookup_insert in Hl; injection Hl as <-; exact Hv
+     |rewrite lookup_insert_ne in Hl by congruence; eapply Hen; eassumption]).
+Qed.
+
+Lemma set_panic_ents pr s : p_ents (set_panic pr s) = p_ents pr.
+Proof. unfold set_panic. destruct (p_panic pr); reflexivity. Qed.
+
+Lemma ents_typed_add_child pr p c : ents_typed (p_ents pr) -> ents_typed (p_ents (add_child pr p c)).
+Proof.
+  intros Ht. unfold add_child.
+  destruct (negb (alive pr p)); [rewrite set_panic_ents; exact Ht|].
+  destruct (p =? c); [rewrite set_panic_ents; exact Ht|]. cbv zeta.
+  apply ents_typed_upd; [|intros en H; exact H].
+  assert (H1 : ents_typed (p_ents (upd_ent pr c (fun en => en <| en_parent := Some (p, p_tick pr) |>))))
+    by (apply ents_typed_upd; [exact Ht|intros en H; exact H]).
+  repeat dmi; try exact H1. apply ents_typed_upd; [exact H1|intros en H; exact H].
+Qed.
+
+Lemma app_step_ents_typed pr op : ents_typed (p_ents pr) -> op_ok pr op -> ents_typed (p_ents (app_step pr op)).
+Proof.
+  intros Ht Hok. destruct op; unfold app_step; cbv zeta; try exact Ht.
+  - (* OSpawn *) cbn [p_ents set]. intros e' en t c Hl Hc. destruct (decide (e' = e)) as [->|Hne].
+    + rewrite lookup_insert in Hl. injection Hl as <-. revert t c Hc.
+      simpl in Hok.
+      refine (foldl_inv (fun en => forall t c, en_comps en !! t = Some c -> val_typed t (c_val c)) _ _ _ _ _).
+      * intros t c Hc. cbn in Hc. rewrite lookup_empty in Hc. discriminate.
+      * intros en [t v] Hin Hen. apply put_comp_typed; [eapply Hok; exact Hin|exact Hen].
+    + rewrite lookup_insert_ne in Hl by congruence. eapply Ht; eassumption.
+  - (* ODespawn *) cbn [p_ents set]. intros e' en t c Hl Hc. apply lookup_delete_Some in Hl as [_ Hl]. eapply Ht; eassumption.
+  - apply ents_typed_upd; [exact Ht|intros en H; exact H].
+  - apply ents_typed_upd; [exact Ht|]. intros en H. apply put_comp_typed; [exact Hok|exact H].
+  - apply ents_typed_upd; [exact Ht|intros en H; exact H].
+  - destruct (alive pr c); [apply ents_typed_add_child; exact Ht|exact Ht].
+  - (* OSetup *) destruct host; exact Ht.
+Qed.
+
+Lemma app_step_app_cmds pr op :
+  p_app_cmds (app_step pr op) = match op with OAppCmd n c => p_app_cmds pr ++ [(n, c)] | _ => p_app_cmds pr end.
+Proof.
+  destruct op; unfold app_step; cbv zeta;
+    unfold add_child, insert_asset, upd_ent, set_panic; cbv zeta; repeat dmi; reflexivity.
+Qed.
+
+Lemma app_step_wire_opted pr op t : wire_opted pr t -> wire_opted (app_step pr op) t.
+Proof.
+  unfold wire_opted. destruct (app_step_static pr op) as (_ & E & _). rewrite E.
+  destruct op; try tauto. intros [H|[H1 H2]]; [left|right; split; [exact H1|]]; apply reg_mono; assumption.
+Qed.
+
+Lemma relayed_ext pr pr' m : n_inbox pr' = n_inbox pr -> p_cmdq pr' = p_cmdq pr -> relayed pr' m -> relayed pr m.
+Proof. unfold relayed. intros -> ->. tauto. Qed.
+
+Lemma app_step_fine (T : tyid -> Prop) pr op : peer_fine T pr -> op_ok pr op -> peer_fine T (app_step pr op).
+Proof.
+  intros [Hq Ho Ht Ha Hr Hout] Hok.
+  destruct (app_step_static pr op) as (E1 & E2 & E3 & E4 & E5 & E6).
+  pose proof (app_step_app_cmds pr op) as E7.
+  constructor.
+  - intros u t v Hin. rewrite E3 in Hin. destruct (Hq _ _ _ Hin) as [Hw Hs]. split; [|exact Hs].
+    apply app_step_wire_opted. exact Hw.
+  - apply app_step_order_ok; [exact Ho|]. intros order ->. exact Hok.
+  - destruct Ht as [T1 T2 T3 T4]. constructor.
+    + apply app_step_ents_typed; assumption.
+    + rewrite E4. exact T2.
+    + rewrite E5. exact T3.
+    + rewrite E7. destruct op; try exact T4. intros n' c' Hin. apply in_app_or in Hin as [Hin|[Heq|[]]].
+      * eapply T4; exact Hin.
+      * injection Heq as <- <-. apply Hok.
+  - unfold app_cmds_ok. rewrite E7. destruct op; try exact Ha. intros n' c' Hin. apply in_app_or in Hin as [Hin|[Heq|[]]].
+    + eapply Ha; exact Hin.
+    + injection Heq as <- <-. apply Hok.
+  - intros m Hm. apply Hr. eapply relayed_ext; [exact E4|exact E5|exact Hm].
+  - rewrite E6. exact Hout.
+Qed.
+
+Lemma inbox_fine (T : tyid -> Prop) pd src (l' : list msg) :
+  peer_fine T pd ->
+  (forall m, In m l' -> In m (default [] (n_inbox pd !! src)) \/ msg_fine T m) ->
+  peer_fine T (pd <| n_inbox := <[src := l']> (n_inbox pd) |>).
+Proof.
+  intros [Hq Ho Ht Ha Hr Hout] Hl'.
+  assert (Hnew : forall from l m, <[src := l']> (n_inbox pd) !! from = Some l -> In m l ->
+                   (exists l0, n_inbox pd !! from = Some l0 /\ In m l0) \/ msg_fine T m).
+  { intros from l m Hl Hin. destruct (decide (from = src)) as [->|Hne].
+    - rewrite lookup_insert in Hl. injection Hl as <-. destruct (Hl' _ Hin) as [H|H]; [left|right; exact H].
+      destruct (n_inbox pd !! src) as [l0|]; [exists l0; split; [reflexivity|exact H]|destruct H].
+    - rewrite lookup_insert_ne in Hl by congruence. left. exists l. split; assumption. }
+  constructor; try assumption.
+  - destruct Ht as [T1 T2 T3 T4]. constructor; try assumption.
+    intros from l u t v Hl Hin. cbn [n_inbox set] in Hl. destruct (Hnew _ _ _ Hl Hin) as [(l0 & H0 & H1)|[_ H]].
+    + eapply T2; eassumption.
+    + exact H.
+  - intros m [(from & l & Hl & Hin)|Hc].
+    + cbn [n_inbox set] in Hl. destruct (Hnew _ _ _ Hl Hin) as [(l0 & H0 & H1)|H]; [|exact H].
+      apply Hr. left. exists from, l0. split; assumption.
+    + apply Hr. right. exact Hc.
+Qed.
+
+Lemma deliver_out_fine (T : tyid -> Prop) g src out :
+  all_fine T g -> (forall d m, In (d, m) out -> msg_fine T m) -> all_fine T (deliver_out g src out).
+Proof.
+  intros Hg Hout. unfold deliver_out. apply foldl_inv; [exact Hg|].
+  intros g' [dst m] Hin Hg'. destruct (g' !! dst) as [pd|] eqn:E; [|exact Hg'].
+  intros p pr Hl. unfold global in *. destruct (decide (p = dst)) as [->|Hne].
+  - rewrite lookup_insert in Hl. injection Hl as <-. apply inbox_fine; [eapply Hg'; exact E|].
+    intros m' Hm'. apply in_app_or in Hm' as [H|[<-|[]]]; [left; exact H|right]. eapply Hout; exact Hin.
+  - rewrite lookup_insert_ne in Hl by congruence. eapply Hg'; exact Hl.
+Qed.
+
+(* registrations only grow along a step *)
+Definition types_grow (g g' : global) : Prop :=
+  forall q prq, g !! q = Some prq -> exists prq', g' !! q = Some prq' /\ forall t, wire_opted prq t -> wire_opted prq' t.
+
+Lemma types_grow_refl g : types_grow g g.
+Proof. intros q prq H. exists prq. split; [exact H|tauto]. Qed.
+
+Lemma types_grow_trans g1 g2 g3 : types_grow g1 g2 -> types_grow g2 g3 -> types_grow g1 g3.
+Proof.
+  intros H12 H23 q prq H. destruct (H12 _ _ H) as (p2 & H2 & W2). destruct (H23 _ _ H2) as (p3 & H3 & W3).
+  exists p3. split; [exact H3|]. intros t Ht. apply W3, W2, Ht.
+Qed.
+
+Lemma types_grow_reg g g' t : types_grow g g' -> registered_somewhere g t -> registered_somewhere g' t.
+Proof. intros H (q & prq & Hq & Hw). destruct (H _ _ Hq) as (prq' & Hq' & W). exists q, prq'. split; [exact Hq'|apply W, Hw]. Qed.
+
+Lemma types_grow_insert g p pr pr' :
+  g !! p = Some pr -> (forall t, wire_opted pr t -> wire_opted pr' t) -> types_grow g (<[p := pr']> g).
+Proof.
+  intros Hp W q prq Hq. unfold global in *. destruct (decide (q = p)) as [->|Hne].
+  - exists pr'. rewrite lookup_insert. split; [reflexivity|]. rewrite Hp in Hq. injection Hq as <-. exact W.
+  - exists prq. rewrite lookup_insert_ne by congruence. split; [exact Hq|tauto].
+Qed.
+
+Lemma types_grow_deliver g src out : types_grow g (deliver_out g src out).
+Proof.
+  unfold deliver_out. apply (foldl_inv (fun g' => types_grow g g')); [apply types_grow_refl|].
+  intros g' [dst m] _ Hg'. destruct (g' !! dst) as [pd|] eqn:E; [|exact Hg'].
+  eapply types_grow_trans; [exact Hg'|]. eapply types_grow_insert; [exact E|]. intros t Ht. exact Ht.
+Qed.
+
+Lemma In_take {A} (x : A) n l : In x (take n l) -> In x l.
+Proof. intros H. rewrite <- (take_drop n l). apply in_or_app. left. exact H. Qed.
+Lemma In_drop {A} (x : A) n l : In x (drop n l) -> In x l.
+Proof. intros H. rewrite <- (take_drop n l). apply in_or_app. right. exact H. Qed.
+
+Lemma reorder_In (l : list msg) i j m : In m (reorder l i j) -> In m l.
+Proof.
+  unfold reorder. destruct (l !! i) as [mi|] eqn:E; [|tauto].
+  destruct (Nat.leb j i && forallb (independent mi) (take (i - j) (drop j l))); [|tauto].
+  intros H. apply in_app_or in H as [H|[<-|H]].
+  - eapply In_take; exact H.
+  - apply elem_of_list_In. eapply elem_of_list_lookup_2; exact E.
+  - apply in_app_or in H as [H|H].
+    + eapply In_drop, In_take, H.
+    + eapply In_drop, H.
+Qed.
+
+Lemma all_fine_insert (T : tyid -> Prop) g p pr' : all_fine T g -> peer_fine T pr' -> all_fine T (<[p := pr']> g).
+Proof.
+  intros Hg Hp q prq Hq. unfold global in *. destruct (decide (q = p)) as [->|Hne].
+  - rewrite lookup_insert in Hq. injection Hq as <-. exact Hp.
+  - rewrite lookup_insert_ne in Hq by congruence. eapply Hg; exact Hq.
+Qed.
+
+Lemma gstep_fine g s : global_fine g -> step_ok g s -> global_fine (gstep g s).
+Proof.
+  intros Hg Hok. unfold global_fine.
+  assert (Hmono : forall g', types_grow g g' -> all_fine (registered_somewhere g) g' ->
+                        all_fine (registered_somewhere g') g').
+  { intros g' Hgr Hf p pr Hp. eapply peer_fine_mono; [|eapply Hf; exact Hp].
+    intros t. apply types_grow_reg. exact Hgr. }
+  destruct s as [p op|p o|dst src i j]; unfold gstep.
+  - destruct (g !! p) as [pr|] eqn:E; [|exact Hg]. apply Hmono.
+    + eapply types_grow_insert; [exact E|]. intros t. apply app_step_wire_opted.
+    + apply all_fine_insert; [exact Hg|]. apply app_step_fine; [eapply Hg; exact E|]. apply Hok. exact E.
+  - destruct (g !! p) as [pr|] eqn:E; [|exact Hg]. cbv zeta.
+    assert (Hfr : peer_fine (registered_somewhere g) (frame pr o)).
+    { apply frame_fine; [eapply Hg; exact E|]. intros t Ht. exists p, pr. split; [exact E|exact Ht]. }
+    apply Hmono.
+    + eapply types_grow_trans; [|apply types_grow_deliver].
+      eapply types_grow_insert; [exact E|]. intros t. unfold wire_opted.
+      destruct (frame_config pr o) as (-> & _). tauto.
+    + apply deliver_out_fine; [apply all_fine_insert; [exact Hg|exact Hfr]|].
+      intros d m Hin. eapply pf_out; [exact Hfr|exact Hin].
+  - destruct (g !! dst) as [pd|] eqn:E; [|exact Hg].
+    destruct (n_inbox pd !! src) as [l|] eqn:El; [|exact Hg]. apply Hmono.
+    + eapply types_grow_insert; [exact E|]. intros t Ht. exact Ht.
+    + apply all_fine_insert; [exact Hg|]. apply inbox_fine; [eapply Hg; exact E|].
+      intros m Hm. left. rewrite El. simpl. eapply reorder_In. exact Hm.
+Qed.
+
+Lemma init_peer_fine (T : tyid -> Prop) id : peer_fine T (init_peer id [] [] []).
+Proof.
+  constructor.
+  - intros u t v [].
+  - intros t [].
+  - constructor.
+    + intros e en t c Hl. cbn in Hl. rewrite lookup_empty in Hl. discriminate.
+    + intros from l u t v Hl. cbn in Hl. rewrite lookup_empty in Hl. discriminate.
+    + intros k cs c Hl. cbn in Hl. rewrite lookup_empty in Hl. discriminate.
+    + intros n c [].
+  - intros n c [].
+  - intros m [(from & l & Hl & _)|(k & cs & c & Hl & _)]; cbn in Hl; rewrite lookup_empty in Hl; discriminate.
+  - intros d m [].
+Qed.
+
+Lemma init_global_fine n : global_fine (init_global n).
+Proof.
+  unfold global_fine. generalize (registered_somewhere (init_global n)). intros T.
+  unfold init_global. apply foldl_inv.
+  - intros p pr Hl. unfold global in *. rewrite lookup_empty in Hl. discriminate.
+  - intros g i _ Hg. cbv zeta. apply all_fine_insert; [exact Hg|apply init_peer_fine].
+Qed.
+
+Lemma grun_fine tr : forall g, global_fine g -> trace_ok g tr -> global_fine (grun g tr).
+Proof.
+  induction tr as [|s tr IH]; intros g Hg Hok; [exact Hg|].
+  destruct Hok as [H1 H2]. simpl. apply IH; [apply gstep_fine; assumption|exact H2].
+Qed.
+
+(* In every state reachable from the initial one under the application discipline, a component
+   message that sits in an inbox, is about to be relayed, or was just emitted, has a (wire) type that
+   is registered with sync_component on some peer and is well typed; every peer satisfies the
+   hypotheses of the per-frame theorems. *)
+Theorem C04_global n tr :
+  trace_ok (init_global n) tr -> global_fine (grun (init_global n) tr).
+Proof. intros Hok. apply grun_fine; [apply init_global_fine|exact Hok]. Qed.
+
+Corollary C04_inbox_registered n tr p pr src l u t v :
+  trace_ok (init_global n) tr ->
+  grun (init_global n) tr !! p = Some pr -> n_inbox pr !! src = Some l -> In (MComp u t v) l ->
+  registered_somewhere (grun (init_global n) tr) t.
+Proof.
+  intros Hok Hp Hl Hin. pose proof (C04_global n tr Hok p pr Hp) as Hf.
+  apply (pf_relayed _ _ Hf (MComp u t v)). left. exists src, l. split; assumption.
+Qed.
+
+(* a component type that no peer registers never travels *)
+Corollary C04_unregistered_never_travels n tr t :
+  trace_ok (init_global n) tr ->
+  (forall q prq, grun (init_global n) tr !! q = Some prq -> ~ wire_opted prq t) ->
+  forall p pr src l u v, grun (init_global n) tr !! p = Some pr -> n_inbox pr !! src = Some l ->
+    ~ In (MComp u t v) l.
+Proof.
+  intros Hok Hno p pr src l u v Hp Hl Hin.
+  destruct (C04_inbox_registered n tr p pr src l u t v Hok Hp Hl Hin) as (q & prq & Hq & Hw).
+  exact (Hno _ _ Hq Hw).
+Qed.
+
+(* The statement with the ORIGINATOR of each message (instead of "some peer") needs a ghost
+   origin carried through relays; the model's messages carry none, so it is only stated over an
+   explicit origin assignment: *)
+Definition C04_global_statement : Prop :=
+  forall n tr, trace_ok (init_global n) tr ->
+  forall p pr src l u t v, grun (init_global n) tr !! p = Some pr -> n_inbox pr !! src = Some l ->
+    In (MComp u t v) l ->
+    exists origin pro, grun (init_global n) tr !! origin = Some pro /\ wire_opted pro t.
+Theorem C04_global_statement_holds : C04_global_statement.
+Proof. intros n tr Hok p pr src l u t v Hp Hl Hin. eapply C04_inbox_registered; eassumption. Qed.
+
+(* ---------- non-vacuity ---------------------------------------------------------------------------- *)
+
+Definition ex_ent (sync : option uuid) (mark : option tick) (comps : list (tyid * value)) (excl : list tyid) : entity :=
+  {| en_mark := mark; en_sync := sync; en_sync_added := 0;
+     en_comps := list_to_map ((fun '(t, v) => (t, {| c_val := v; c_added := 5; c_changed := 5 |})) <$> comps);
+     en_excl := excl; en_parent := None; en_children := [] |}.
+
+(* a connected host with one client (7): T_A is registered, T_B is not; entity 1 is synchronised
+   and carries both; entity 2 is synchronised, carries T_A and SyncExclude<T_A>; entity 3 carries
+   T_A but was never marked *)
+Definition ex_state : peer_state :=
+  (init_peer 0 [T_A] [T_A; T_B] [SDetect T_A; SSrvReact; SSync])
+    <| p_ents := list_to_map [(1, ex_ent (Some 1) None [(T_A, VN 5); (T_B, VN 7)] []);
+                              (2, ex_ent (Some 2) None [(T_A, VN 6)] [T_A]);
+                              (3, ex_ent None None [(T_A, VN 8)] [])] |>
+    <| t_u2e := list_to_map [(1, 1); (2, 2)] |> <| t_e2u := list_to_map [(1, 1); (2, 2)] |>
+    <| p_tick := 10 |> <| n_setup := true |> <| n_srv_transport := Some 1 |> <| s_server := SrvConnected |>.
+Definition ex_oracle : frame_oracle :=
+  {| fo_conn_events := []; fo_clients := [7]; fo_status := None; fo_srv_poll := []; fo_cli_poll := 0%nat;
+     fo_downloads := [] |}.
+
+(* one frame emits exactly the one allowed update *)
+Example ex_out : p_out (frame ex_state ex_oracle) = [(7, MComp 1 T_A (VN 5))].
+Proof. vm_compute. reflexivity. Qed.
+
+Ltac lookup_cases H :=
+  apply elem_of_map_to_list in H; apply elem_of_list_In in H; vm_compute in H;
+  repeat (destruct H as [H|H]; [inversion H; subst; clear H|]); try contradiction.
+
+Example ex_typed : typed_state ex_state.
+Proof.
+  constructor.
+  - intros e en t c He Hc. lookup_cases He; lookup_cases Hc; exact I.
+  - intros from l u t v Hl. vm_compute in Hl. discriminate.
+  - intros k cs c Hl. vm_compute in Hl. discriminate.
+  - intros n c [].
+Qed.
+
+Example ex_hyps :
+  p_panic ex_state = None /\ queue_ok ex_state /\ order_ok ex_state /\ typed_state ex_state /\
+  app_cmds_ok ex_state.
+Proof.
+  split; [reflexivity|]. split; [intros u t v []|]. split; [|split; [exact ex_typed|intros n c []]].
+  intros t [H|[H|[H|[]]]]; try discriminate. injection H as <-. left. reflexivity.
+Qed.
+
+Example ex_unregistered : ~ wire_opted ex_state T_B.
+Proof. intros [[H|[]]|[H _]]; discriminate. Qed.
+
+Example ex_unknown : ~ known ex_state 3 /\ t_e2u ex_state !! 3 = None /\ ~ marked ex_state 3 /\
+                     3 < p_next_ent ex_state.
+Proof.
+  split; [|split; [reflexivity|split; [|reflexivity]]].
+  - intros [(e & H)|[(e & H)|[(e & en & H & Hs)|[(en & H & Hm)|[(t & v & [])|[Hr|(k & cs & e & H & _)]]]]]].
+    + vm_compute in H. discriminate.
+    + lookup_cases H.
+    + lookup_cases H; vm_compute in Hs; discriminate.
+    + vm_compute in H. inversion H; subst. apply Hm. reflexivity.
+    + destruct Hr as [(from & l & H & _)|(k & cs & c & H & _)]; vm_compute in H; discriminate.
+    + vm_compute in H. discriminate.
+  - intros (en & H & Hm). vm_compute in H. inversion H; subst. apply Hm. reflexivity.
+Qed.
+
+(* the detector of T_A finds entity 2 excluded at the (only) point where it runs *)
+Example ex_excluded_entity :
+  exists en, p_ents (frame_mid ex_state ex_oracle []) !! 2 = Some en /\ en_sync en = Some 2 /\
+             In T_A (en_excl en) /\ is_Some (en_comps en !! T_A).
+Proof. eexists. split; [vm_compute; reflexivity|]. split; [reflexivity|]. split; [left; reflexivity|]. vm_compute. eauto. Qed.
+
+(* typed_state cannot be dropped: values are untyped in the model, and a SkinnedMesh value stored
+   under a registered plain type leaves as T_MAPPER although T_SKIN is not registered (cannot
+   happen in Rust, where the value determines the component type) *)
+Definition ex_untyped : peer_state :=
+  ex_state <| p_ents := list_to_map [(1, ex_ent (Some 1) None [(T_A, VSkin [] [])] [])] |>.
+Example untyped_skin_leaks_mapper :
+  p_out (frame ex_untyped ex_oracle) = [(7, MComp 1 T_MAPPER (VMapper [] []))] /\
+  ~ wire_opted ex_untyped T_MAPPER.
+Proof. split; [vm_compute; reflexivity|]. intros [[H|[]]|[_ [H|[]]]]; discriminate. Qed.
+
+(* assets: the default material (asset 0) was modified; it leaves only if materials are enabled *)
+Definition ex_assets (mat : bool) : peer_state :=
+  ex_state <| p_order := [SSrvMat] |> <| a_ready := [(KMaterial, 0)] |> <| t_mat := mat |>.
+Example ex_assets_on : p_out (frame (ex_assets true) ex_oracle) = [(7, MMaterial 0 500)].
+Proof. vm_compute. reflexivity. Qed.
+Example ex_assets_off : p_out (frame (ex_assets false) ex_oracle) = [].
+Proof. vm_compute. reflexivity. Qed.
+Example ex_assets_hyps b : p_panic (ex_assets b) = None /\ app_cmds_ok (ex_assets b).
+Proof. split; [reflexivity|intros n c []]. Qed.
+
+(* a trace of the global system that satisfies the discipline and makes a component travel *)
+Definition ex_o1 : frame_oracle :=
+  {| fo_conn_events := []; fo_clients := [1]; fo_status := None; fo_srv_poll := []; fo_cli_poll := 0%nat;
+     fo_downloads := [] |}.
+Definition ex_trace : list step :=
+  [StApp 0 (OReg T_A);
+   StApp 0 (OSetOrder [SSrvConnected; SSrvCreated; SSync; SDetect T_A; SSrvReact]);
+   StApp 0 (OSetup true 0);
+   StApp 0 (OSpawn 1 true [(T_A, VN 5); (T_B, VN 7)]);
+   StApp 0 (OSpawn 2 false [(T_A, VN 6)]);
+   StFrame 0 ex_o1; StFrame 0 ex_o1].
+
+Example ex_trace_delivers :
+  match grun (init_global 2) ex_trace !! 1 with Some pr => inbox_of pr 0 | None => [] end
+  = [MSpawn 1; MComp 1 T_A (VN 5)].
+Proof. vm_compute. reflexivity. Qed.
+
+(* a boolean checker of the discipline, to validate concrete traces by computation *)
+Definition val_typedb (t : tyid) (v : value) : bool :=
+  match v with VSkin _ _ => t =? T_SKIN | _ => true end.
+Definition op_okb (pr : peer_state) (op : app_op) : bool :=
+  match op with
+  | OSetOrder order =>
+      forallb (fun s => match s with SDetect t => memN t (p_sync_types pr) | _ => true end) order
+  | OAppCmd _ c =>
+      match c with
+      | CAppDespawnUuid _ | CAppDespawn _ => true
+      | CAppInsert _ t v => val_typedb t v
+      | _ => false
+      end
+  | OSpawn _ _ comps => forallb (fun x : tyid * value => val_typedb x.1 x.2) comps
+  | OWrite _ t v => val_typedb t v
+  | _ => true
+  end.
+Fixpoint trace_okb (g : global) (tr : list step) : bool :=
+  match tr with
+  | [] => true
+  | s :: tr' =>
+      match s with
+      | StApp p op => match g !! p with Some pr => op_okb pr op | None => true end
+      | _ => true
+      end && trace_okb (gstep g s) tr'
+  end.
+
+Lemma val_typedb_sound t v : val_typedb t v = true -> val_typed t v.
+Proof. destruct v; simpl; try (intros; exact I). apply N.eqb_eq. Qed.
+
+Lemma op_okb_sound pr op : op_okb pr op = true -> op_ok pr op.
+Proof.
+  destruct op; simpl; try (intros; exact I).
+  - intros H t v Hin. rewrite forallb_forall in H. apply val_typedb_sound. exact (H (t, v) Hin).
+  - apply val_typedb_sound.
+  - destruct c; try discriminate; intros H; (split; [exact I|]); simpl; try exact I. apply val_typedb_sound. exact H.
+  - intros H t Hin. rewrite forallb_forall in H. apply memN_In. exact (H _ Hin).
+Qed.
+
+Lemma trace_okb_sound tr : forall g, trace_okb g tr = true -> trace_ok g tr.
+Proof.
+  induction tr as [|s tr IH]; intros g H; [exact I|]. simpl in H. apply andb_true_iff in H as [H1 H2].
+  split; [|apply IH; exact H2]. destruct s; try exact I. intros pr Hp. unfold global in *. rewrite Hp in H1.
+  apply op_okb_sound. exact H1.
+Qed.
+
+Example ex_trace_ok : trace_ok (init_global 2) ex_trace.
+Proof. apply trace_okb_sound. vm_compute. reflexivity. Qed.
+
+(* `~ known pr e` cannot be weakened to "e is unmarked, unsynchronised and not a key of
+   entity_to_uuid": uuids of remote entities live in the same number space as local entity ids, and
+   the tracker may hold uuid 3 for the (despawned) local copy 9 of a remote entity *)
+Definition ex_collision : peer_state :=
+  ex_state <| p_order := [SSrvRemoved] |> <| t_e2u := {[ 9 := 3 ]} |> <| t_u2e := {[ 3 := 9 ]} |>.
+Example never_marked_needs_unknown :
+  (exists en, p_ents ex_collision !! 3 = Some en /\ en_mark en = None /\ en_sync en = None) /\
+  t_e2u ex_collision !! 3 = None /\
+  p_out (frame ex_collision ex_oracle) = [(7, MDelete 3)] /\
+  ~ relayed ex_collision (MDelete 3).
+Proof.
+  split; [eexists; split; [vm_compute; reflexivity|split; reflexivity]|].
+  split; [reflexivity|]. split; [vm_compute; reflexivity|].
+  intros [(from & l & H & _)|(k & cs & c & H & _)]; vm_compute in H; discriminate.
+Qed.
+
+(* the corollaries applied to the examples *)
+Example ex_unregistered_silent dst u v :
+  In (dst, MComp u T_B v) (p_out (frame ex_state ex_oracle)) -> relayed ex_state (MComp u T_B v).
+Proof.
+  destruct ex_hyps as (H1 & H2 & H3 & H4 & H5).
+  exact (unregistered_type_never_originated ex_state ex_oracle T_B H1 H2 H3 H4 H5 ex_unregistered dst u v).
+Qed.
+
+Example ex_unmarked_silent :
+  (forall dst, ~ In (dst, MSpawn 3) (p_out (frame ex_state ex_oracle))) /\
+  t_e2u (frame ex_state ex_oracle) !! 3 = None.
+Proof.
+  destruct ex_hyps as (H1 & _ & _ & _ & H5). destruct ex_unknown as (K1 & K2 & K3 & K4). split.
+  - apply (never_marked_never_sent ex_state ex_oracle 3 H1 H5 K1).
+  - exact (unmarked_stays_untracked ex_state ex_oracle 3 H1 H5 K2 K3 K4).
+Qed.
+
+Print Assumptions frame_config.
+Print Assumptions sync_detect_adds_opted.
+Print Assumptions snapshot_opted.
+Print Assumptions component_provenance.
+Print Assumptions originated_components_opted_in.
+Print Assumptions originated_assets_enabled.
+Print Assumptions originated_subjects_known.
+Print Assumptions never_marked_never_sent.
+Print Assumptions unmarked_stays_untracked.
+Print Assumptions excluded_detector_silent.
+Print Assumptions frame_preserves_hyps.
+Print Assumptions app_step_order_ok.
+Print Assumptions C04_global.
+Print Assumptions C04_unregistered_never_travels.
+Print Assumptions ex_trace_ok.
